@@ -14,9 +14,6 @@ NOT_APPLICABLE = {
     'C09': 'wallet sync convergence lives in sqlite tables computed by SQL (_transaction_io, select_txos, get_balance) '
            'driven by network replies under asyncio; neither the SQL engine nor the C library can be executed '
            'symbolically here, and a hand-written database model would verify the model, not the code',
-    'C18': 'blob bookkeeping after restart is the SQL of sync_missing_blobs/add_blobs/delete_blobs_from_db plus '
-           'directory scans; same reason as C09 (the only pure-Python part, two set operations, is too thin to carry '
-           'the property)',
 }
 PENDING = 'solver-based harness not built yet in this tree (see DESIGN.md section 4 for the plan)'
 
